@@ -517,6 +517,42 @@ EvalT(t, atoms) ==
     [] t.k = "F" -> ApplyFun(t.f, [i \in 1..Len(t.args) |-> EvalT(t.args[i], atoms)], atoms)
     [] OTHER -> ERR
 
+(* ---- named deviations of the pinned implementation ------------------------------------------------ *)
+(* Devs(t) = the known defects of the pinned tree that the evaluation of t runs into (operator.c, function.c,  *)
+(* asmpars.c; each is reproduced by the replay and has a proposed fix).  The expected values above are the     *)
+(* manual's; these tags only let the check tell a known finding from a new one.                                *)
+StrUnconvertible(v, want) == v.t = "S" /\ want \in {"I", "F"} /\ Len(v.v) \notin 1..4
+DevBin(n, a, b) ==
+  IF ~IsVal(a) \/ ~IsVal(b) THEN {}
+  ELSE LET op == OpByName(n)
+           ty == Typing(op, a.t, b.t)
+       IN IF ty[1] = 255 THEN {}
+          ELSE LET c == op.tc[ty[2]]
+                   x == Convert(a, c[1])
+                   y == Convert(b, c[2])
+               IN (IF StrUnconvertible(a, c[1]) \/ StrUnconvertible(b, c[2]) THEN {"str2int_range"} ELSE {})
+                  \cup (IF n = ">>" /\ IsVal(x) /\ IsVal(y) /\ IsNeg(x.v) /\ ShiftCountOK(y.v) /\ y.v[1] > 0 THEN {"shr_negative"} ELSE {})
+                  \cup (IF n \in {"/", "#"} /\ c[1] = "I" /\ IsVal(x) /\ IsVal(y) /\ DivOverflows(x.v, y.v) THEN {"div_minint_neg1"} ELSE {})
+                  \cup (IF n = "^" /\ c[1] = "F" /\ IsVal(x) /\ IsVal(y) /\ x.v.s = 1 /\ y.v.m # 0 /\ DyIsInt(y.v) THEN {"pow_float_negbase"} ELSE {})
+                  \cup (IF n = "><" /\ IsVal(x) /\ IsVal(y) /\ y.v = FromNat(32)
+                          /\ (Bit(x.v, 0) = 1 \/ (Bit(x.v, 31) = 0 /\ ShrL(x.v, 32) # Zero)) THEN {"mirror_32"} ELSE {})
+DevUn(n, b) ==
+  IF IsVal(b) /\ StrUnconvertible(b, "I") THEN {"str2int_range"} ELSE {}
+DevFun(f, vs) ==
+  IF \E i \in 1..Len(vs) : ~IsVal(vs[i]) THEN {}
+  ELSE (IF f = "FIRSTBIT" /\ Len(vs) = 1 /\ vs[1].t = "I" /\ Bit(vs[1].v, 0) = 1 /\ Bit(vs[1].v, 1) = 0 THEN {"firstbit_odd"} ELSE {})
+       \cup (IF f = "SUBSTR" /\ Len(vs) = 3 /\ vs[1].t = "S" /\ vs[2].t = "I" /\ vs[3].t = "I" /\ IsNeg(vs[2].v) THEN {"substr_negstart"} ELSE {})
+       \cup (IF f = "BITPOS" /\ Len(vs) = 1 /\ vs[1].t = "I" /\ vs[1].v = MinInt THEN {"bitpos_minint"} ELSE {})
+RECURSIVE Devs(_, _)
+Devs(t, atoms) ==
+  CASE t.k = "F" /\ t.f = "VAL" /\ Len(t.args) = 1 /\ t.args[1].k = "A" /\ t.args[1].a \in DOMAIN atoms.valsrc ->
+         Devs(atoms.valsrc[t.args[1].a], atoms)
+    [] t.k = "U" -> Devs(t.x, atoms) \cup DevUn(t.o, EvalT(t.x, atoms))
+    [] t.k = "B" -> Devs(t.l, atoms) \cup Devs(t.r, atoms) \cup DevBin(t.o, EvalT(t.l, atoms), EvalT(t.r, atoms))
+    [] t.k = "F" -> UNION {Devs(t.args[i], atoms) : i \in 1..Len(t.args)}
+                    \cup DevFun(t.f, [i \in 1..Len(t.args) |-> EvalT(t.args[i], atoms)])
+    [] OTHER -> {}
+
 (* ---- what the code file must contain ------------------------------------------------------------- *)
 \* integer: 8 bytes (dq / dc.q), float: IEEE double (dq / dc.d), string: its characters (db / dc.b);
 \* least significant byte first - the renderer reverses for big-endian targets
